@@ -20,13 +20,30 @@ def run(ctx):
             continue     # same code as -lh5- / -lh6- with another ring size; thorough runs them all
         ctx.run_space(asan, "lhgrammar", ["method=" + m, "maxbits=%d" % (8 if T else 4)], cpu_limit=60)
         ctx.run_space(asan, "lhgrammar2", ["method=" + m, "maxbits=%d" % (8 if T else 4)], cpu_limit=60)
+    # (c) every single-byte substitution and truncation of valid streams taken from the C01/C03/C04 spaces
+    dump = os.path.join(ctx.scratch, "valid-streams.txt")
+    env = dict(os.environ, VF_DUMP=dump)
+    sources = [("dec_larc", "lz5-seq", [], 40), ("dec_larc", "lzs-seq", [], 40), ("dec_larc", "lz5-flags", [], 4),
+               ("dec_lh", "tables", ["method=-lh5-"], 300), ("dec_lh", "tables", ["method=-lk7-"], 300), ("dec_lh", "seq", ["method=-lh6-", "depth=2"], 4),
+               ("dec_lh", "blocks", ["method=-lh7-", "maxn=4"], 10), ("dec_pm", "pm2-tables", [], 30), ("dec_pm", "pm2-seq", ["depth=2"], 2),
+               ("dec_pm", "pm2-bytes", [], 30), ("dec_pm", "pm1-headers", [], 12), ("dec_pm", "pm1-seq", ["depth=2"], 3)]
+    for ex, space, args, stride in sources:
+        b = build.ensure_explorer(ex, "plain")
+        env["VF_DUMP_STRIDE"] = str(stride * 8 if not T else max(1, stride // 2))
+        subprocess.run([b, "--space", space, "--shard", "0/1"] + args, env=env, stdout=subprocess.DEVNULL, stderr=subprocess.DEVNULL, cwd=ctx.scratch)
+    lines = sorted(set(open(dump).read().split("\n"))) if os.path.exists(dump) else []
+    lines = [l for l in lines if l.strip()]
+    with open(dump, "w") as f:
+        f.write("\n".join(lines) + "\n")
+    ctx.notes["subst"] = {"valid_streams": len(lines)}
+    ctx.run_space(asan, "subst", ["streams=" + dump], cpu_limit=120)
     if T:
         # all 3-byte strings: plain build for volume (bounds violations are caught at the smaller asan bound above)
         ctx.run_space(plain, "short", ["maxlen=3"], cpu_limit=120)
     return ctx.finish(
         rule="'short': every byte string up to the length as the whole compressed input of each of the 14 method names x declared lengths {0,1,65536,2^32-1} x read schedules {1.., 3.., 4096.., 1 then 4096} (+ one byte per input callback for bit-reader decoders); "
              "'lhgrammar'/'lhgrammar2': block count x temp-table size x all-equal temp lengths (0..19, unary extension) x skip x code-table size / out-of-range single symbols x offset-table size beyond the maximum, each followed by every bit string up to maxbits with all-0 and all-1 tails; "
-             "'pm2grammar': num_codes x min_len x length_bits over their full 5+3+3-bit ranges x field values, then bit strings; 'pm1grammar': 32 headers x every command prefix; 'lh1bits'. Oracle: no sanitizer report/signal, read(k) returns <= k, total <= declared, the call returns (CPU watchdog). "
+             "'subst': every byte position of several hundred (thorough: thousands of) valid streams dumped from the C01/C03/C04 spaces x all 255 substitutions, truncation, 0x00/0xFF tails; 'pm2grammar': num_codes x min_len x length_bits over their full 5+3+3-bit ranges x field values, then bit strings; 'pm1grammar': 32 headers x every command prefix; 'lh1bits'. Oracle: no sanitizer report/signal, read(k) returns <= k, total <= declared, the call returns (CPU watchdog). "
              "non-trivial = distinct input byte strings",
         replay_fn=lambda rep: runner.replay_explorer(rep, quiet=True))
 
